@@ -180,6 +180,17 @@ CHECKS["C05"] = dict(
         "zero-pupil ray -> stop centre. The limit is observed over 2.4 decades, not proved. Calibration every run.",
    technique="TLA+ limit predicate + TLC MC on synthetic sequences; code->spec trace validation of recorded eps-families (dyadic)",
    ref="6 (C05)")
+CHECKS["C11"] = dict(
+   text="spec/Diffraction.tla states the PSF/Strehl/MTF laws from their definitions (squared modulus of the DFT of the sampled pupil scaled so that the "
+        "unaberrated pupil peaks at 100; Parseval; Strehl <= 1; MTF = normalised pupil autocorrelation, bounds, diffraction limit, frequency axis with "
+        "cut-off 1/(lambda F#_w); geometric MTF as the Fourier transform of the line spread). MC_Diffraction derives Parseval, psf <= 100, Strehl <= 1 and "
+        "Wiener-Khinchin exactly on all 2x2 pupils over a small complex alphabet padded to 4x4 (w = -i) and on 8x8 float witnesses, and rejects 14 "
+        "perturbations. Trace_Diffraction evaluates the laws on the code's own complex pupil and outputs for stigmatic and random aberrated lenses "
+        "(sampling 16-256, grids 64-2048): exact-DFT pixel law on sampled pixels (every pixel of some 64x64 images in thorough), sums, normalisation, "
+        "Strehl, FFTMTF curves and axis as drawn by view(), GeometricMTF from its histogram; roots of unity and trig certificates are validated "
+        "polynomially. Pixel equality on large grids is sampled, not total. Calibration every run.",
+   technique="TLA+ law module + TLC MC on exact small pupils; code->spec trace validation with exact complex dyadic DFT on sampled pixels",
+   ref="6 (C11)")
 NOT_YET = "check being built (see DESIGN.md section 6 for the plan)"
 def main():
     props = [json.loads(l)["id"] for l in open(os.path.join(HERE, "properties.jsonl"))]
